@@ -95,8 +95,27 @@ def main():
                     break
                 yield c
         prop.gen_cases = limited
-    sys.exit(runner.run_check(prop, args.tier, seed, workers=args.workers,
-                              budget_s=args.budget))
+    # needles found once (by a red team, a soak, another seed) that the seeded
+    # sample of this tier reaches only now and then: their replay files are
+    # kept under regress/ and re-run on every check
+    rc_regress = 0
+    known, _ = runner.load_known(prop.ID)
+    import glob
+    for f in sorted(glob.glob(os.path.join(HERE, 'regress',
+                                           '%s-*.json' % prop.ID))):
+        doc = json.load(open(f))
+        cases = doc['cases'] if 'cases' in doc else [doc['case']]
+        for case in cases:
+            for v in prop.run_case(case)['violations']:
+                if v['sig'] in known:
+                    continue
+                rc_regress = 1
+                print('VIOLATION property=%s replay=%s' % (prop.ID, f))
+                print('  sig: %s' % v['sig'])
+                print('  what: %s' % v['what'])
+    rc = runner.run_check(prop, args.tier, seed, workers=args.workers,
+                          budget_s=args.budget)
+    sys.exit(rc or rc_regress)
 
 
 if __name__ == '__main__':
